@@ -5,7 +5,12 @@ Property theorems only (helper lemmas live in `PvProofs/Lemmas/Name*.lean`).  Th
 `PvModel.Name` (x/name keeper, msg server, key derivation); `cfg.H` is the hash of the store key
 (`0x03 ‖ sha256`), an arbitrary function: where a theorem needs collision resistance it is the
 HYPOTHESIS `Function.Injective cfg.H`, never an axiom.  All theorems are for every configuration
-(limits, authority, address predicates), every state / every history of messages.
+(limits, authority, address predicates, canonical-spelling function), every state / every history
+of messages, and — for the statements about reachable states — every genesis file `InitGenesis`
+accepts as the start of the history (`initGenesis cfg {} gs = .ok st0`; `gs = []` is the empty
+chain).  Address strings are AS WRITTEN in the message / genesis file; `cfg.canon` is the canonical
+spelling of the address they parse to ("the signer is the owner" compares canonical spellings,
+i.e. address bytes).
 
 The last clause of the property is FALSE of the code: the key pre-image concatenates the reversed
 segments without a separator (x/name/types/keys.go:47-56), so different valid names that are
@@ -15,7 +20,7 @@ different segmentations of one byte string share a key.  `key_collision` is the 
 profiles), `key_collision_iff_resegmentation` the exact collision condition.  Recorded as known
 finding `C15-key-collision`.
 -/
-import PvProofs.Lemmas.NameHandlers
+import PvProofs.Lemmas.NameRoot
 import Mathlib.Data.List.Nodup
 
 namespace PvProofs.C15
@@ -26,10 +31,10 @@ variable {κ : Type} [DecidableEq κ] (cfg : Cfg κ)
 /-! ### who may do what (one message, any state) -/
 
 /-- A name is bound only under a parent name that resolves, and if that parent is restricted only
-when the signer is the parent's owner. -/
+when the signer (the address the parent-address string parses to) is the parent's owner. -/
 theorem bind_requires_parent {st st' : State κ} {pn rn : Bytes} {pa ra : Addr} {r : Bool}
     (h : step cfg st (.bind pn pa rn ra r) = .ok st') :
-    bindAllowed (getRecordByName cfg st pn) pa = true := by
+    bindAllowed (getRecordByName cfg st pn) (cfg.canon pa) = true := by
   obtain ⟨par, name, k, hpar, hres, -⟩ := bindName_ok cfg (step_ok_cases cfg h)
   rw [hpar]
   simp only [bindAllowed, Bool.or_eq_true, Bool.not_eq_true', beq_iff_eq]
@@ -49,7 +54,7 @@ theorem bind_under_immediate_parent (hH : Function.Injective cfg.H) {st st' : St
     (h : step cfg st (.bind pn pa rn ra r) = .ok st') :
     ∃ name, normalize cfg (rn ++ dot :: pn) = .ok name ∧ 2 ≤ (splitDot name).length ∧
       immediateParent name = normalizeName pn ∧
-      bindAllowed (getRecordByName cfg st (immediateParent name)) pa = true := by
+      bindAllowed (getRecordByName cfg st (immediateParent name)) (cfg.canon pa) = true := by
   have hvb : validateBasic cfg (.bind pn pa rn ra r) = true := by
     unfold step at h
     split at h
@@ -93,7 +98,8 @@ theorem modify_only_owner_or_gov {st st' : State κ} {a ad : Addr} {n : Bytes} {
 /-- Only the owner deletes a name (governance cannot). -/
 theorem delete_only_owner {st st' : State κ} {n : Bytes} {a : Addr}
     (h : step cfg st (.delete n a) = .ok st') :
-    ∃ nn, normalize cfg n = .ok nn ∧ deleteAllowed (getRecordByName cfg st nn) a = true := by
+    ∃ nn, normalize cfg n = .ok nn ∧
+      deleteAllowed (getRecordByName cfg st nn) (cfg.canon a) = true := by
   obtain ⟨name, k, rec, hn, hk, hg, haddr, -⟩ := deleteName_ok cfg (step_ok_cases cfg h)
   refine ⟨name, hn, ?_⟩
   rw [getRecordByName_eq cfg hk, hg]
@@ -102,27 +108,29 @@ theorem delete_only_owner {st st' : State κ} {n : Bytes} {a : Addr}
 /-- Root names are created by the governance authority only. -/
 theorem root_only_gov {st st' : State κ} {a o : Addr} {n : Bytes} {r : Bool}
     (h : step cfg st (.root a n o r) = .ok st') : rootAllowed cfg.authority a = true := by
-  obtain ⟨ha, -⟩ := createRootNameMsg_ok cfg (step_ok_cases cfg h)
+  obtain ⟨ha, -, -⟩ := createRootNameMsg_ok cfg (step_ok_cases cfg h)
   simp [rootAllowed, ha]
 
 /-! ### what a message changes -/
 
 /-- `BindName` adds exactly one record, under a key that was free, named by the normalized
-`child.parent`, and changes no other record. -/
+`child.parent`, bound to the CANONICAL spelling of the record address, and changes no other
+record. -/
 theorem bind_effect {st st' : State κ} {pn rn : Bytes} {pa ra : Addr} {r : Bool}
     (h : step cfg st (.bind pn pa rn ra r) = .ok st') :
     ∃ name k, normalize cfg (rn ++ dot :: pn) = .ok name ∧ getNameKeyPrefix cfg name = .ok k ∧
-      get st.recs k = none ∧ get st'.recs k = some ⟨name, ra, r⟩ ∧
+      get st.recs k = none ∧ get st'.recs k = some ⟨name, cfg.canon ra, r⟩ ∧
       ∀ k', k' ≠ k → get st'.recs k' = get st.recs k' := by
-  obtain ⟨par, name, k, -, -, hn, hk, hfree, rfl⟩ := bindName_ok cfg (step_ok_cases cfg h)
+  obtain ⟨par, name, k, -, -, hn, hk, hfree, -, rfl⟩ := bindName_ok cfg (step_ok_cases cfg h)
   exact ⟨name, k, hn, hk, hfree, get_set_self _ _ _, fun k' hk' => get_set_ne _ _ hk'⟩
 
 /-- `ModifyName` rewrites exactly the record under the key of the normalized name. -/
 theorem modify_effect {st st' : State κ} {a ad : Addr} {n : Bytes} {r : Bool}
     (h : step cfg st (.modify a n ad r) = .ok st') :
     ∃ name k, normalize cfg n = .ok name ∧ getNameKeyPrefix cfg name = .ok k ∧
-      get st'.recs k = some ⟨name, ad, r⟩ ∧ ∀ k', k' ≠ k → get st'.recs k' = get st.recs k' := by
-  obtain ⟨ex, name, k, -, -, hn, hk, rfl⟩ := modifyName_ok cfg (step_ok_cases cfg h)
+      get st'.recs k = some ⟨name, cfg.canon ad, r⟩ ∧
+      ∀ k', k' ≠ k → get st'.recs k' = get st.recs k' := by
+  obtain ⟨ex, name, k, -, -, hn, hk, -, rfl⟩ := modifyName_ok cfg (step_ok_cases cfg h)
   exact ⟨name, k, hn, hk, get_set_self _ _ _, fun k' hk' => get_set_ne _ _ hk'⟩
 
 /-- `DeleteName` removes exactly the record under the key of the normalized name. -/
@@ -139,9 +147,23 @@ theorem root_effect {st st' : State κ} {a o : Addr} {n : Bytes} {r : Bool}
     (h : step cfg st (.root a n o r) = .ok st') :
     (∀ k e, get st.recs k = some e → get st'.recs k = some e) ∧
     (∀ k r', get st'.recs k = some r' → get st.recs k = some r' ∨
-      (get st.recs k = none ∧ r'.addr = o ∧ r'.restricted = r ∧ IsNormalized cfg r'.name)) := by
-  obtain ⟨-, hl⟩ := createRootNameMsg_ok cfg (step_ok_cases cfg h)
+      (get st.recs k = none ∧ r'.addr = cfg.canon o ∧ r'.restricted = r ∧
+        IsNormalized cfg r'.name)) := by
+  obtain ⟨-, -, hl⟩ := createRootNameMsg_ok cfg (step_ok_cases cfg h)
   exact createRootLoop_effect cfg _ _ _ _ _ _ hl
+
+/-- `CreateRootName` establishes every level of the name it is given: a name it brings into being
+with two or more segments has its immediate parent bound afterwards (created by the same message,
+or there before) — "a name can be bound only under an existing parent" for root creation.
+(Reachable state, collision-free hash: an existing level is looked up under the raw spelling.) -/
+theorem root_establishes_all_levels (hH : Function.Injective cfg.H) {st st' : State κ}
+    (hI : Inv cfg st) {a o : Addr} {n : Bytes} {r : Bool}
+    (h : step cfg st (.root a n o r) = .ok st') :
+    ∀ k r', get st'.recs k = some r' → get st.recs k = none → 2 ≤ (splitDot r'.name).length →
+      (getRecordByName cfg st' (immediateParent r'.name)).isSome = true := by
+  obtain ⟨-, -, hl⟩ := createRootNameMsg_ok cfg (step_ok_cases cfg h)
+  exact createRootLoop_levels cfg hH _ _ _ [] st st'
+    (fun s hs => splitDot_dotfree n s (List.mem_reverse.mp hs)) hI (by decide) (Or.inl rfl) hl
 
 /-- A rejected message changes nothing (the model's `apply` drops the failed transaction; on the
 implementation this is checked after every rejected message of the correspondence run). -/
@@ -149,14 +171,56 @@ theorem rejected_changes_nothing {st : State κ} {op : Op} {e : Err} (h : step c
     apply cfg st op = st := by
   simp [apply, h]
 
+/-- Every message keeps the stored addresses canonical (`canon` is idempotent: the canonical
+spelling of an address parses to that address). -/
+theorem canonStored_step (hC : ∀ a, cfg.canon (cfg.canon a) = cfg.canon a) {st st' : State κ}
+    (hS : CanonStored cfg st) {op : Op} (h : step cfg st op = .ok st') : CanonStored cfg st' := by
+  intro k r' hg
+  cases op with
+  | root a n o r =>
+    rcases (root_effect cfg h).2 k r' hg with h1 | ⟨-, ha, -⟩
+    · exact hS k r' h1
+    · rw [ha, hC]
+  | bind pn pa rn ra r =>
+    obtain ⟨name, k0, -, -, -, hnew, hframe⟩ := bind_effect cfg h
+    by_cases hk : k = k0
+    · subst hk; rw [hnew] at hg; cases hg; exact hC ra
+    · rw [hframe k hk] at hg; exact hS k r' hg
+  | modify a n ad r =>
+    obtain ⟨name, k0, -, -, hnew, hframe⟩ := modify_effect cfg h
+    by_cases hk : k = k0
+    · subst hk; rw [hnew] at hg; cases hg; exact hC ad
+    · rw [hframe k hk] at hg; exact hS k r' hg
+  | delete n a =>
+    obtain ⟨name, k0, -, -, hnew, hframe⟩ := delete_effect cfg h
+    by_cases hk : k = k0
+    · subst hk; rw [hnew] at hg; cases hg
+    · rw [hframe k hk] at hg; exact hS k r' hg
+
+theorem canonStored_apply (hC : ∀ a, cfg.canon (cfg.canon a) = cfg.canon a) {st : State κ}
+    (hS : CanonStored cfg st) (op : Op) : CanonStored cfg (apply cfg st op) := by
+  unfold apply
+  split
+  · rename_i st' h; exact canonStored_step cfg hC hS h
+  · exact hS
+
+theorem canonStored_run (hC : ∀ a, cfg.canon (cfg.canon a) = cfg.canon a) (ops : List Op) :
+    ∀ {st : State κ}, CanonStored cfg st → CanonStored cfg (run cfg st ops) := by
+  induction ops with
+  | nil => intro st hS; exact hS
+  | cons op ops ih => intro st hS; exact ih (canonStored_apply cfg hC hS op)
+
 /-- Records never change except by their owner or governance: if a message alters or removes an
-existing record, its signer is that record's owner or the governance authority.  (In a reachable
-state, for a collision-free hash; `ModifyName` looks the record up under the raw name but writes
-under the normalized one, the two keys agree because stored names are lower-case.) -/
+existing record, its signer — the address the signer string parses to — is that record's owner,
+or the signer is the governance authority.  (In a reachable state, for a collision-free hash;
+`ModifyName` looks the record up under the raw name but writes under the normalized one, the two
+keys agree because stored names are lower-case; it compares the authority string as written with
+the stored owner string, which is canonical.) -/
 theorem existing_record_changed_only_by_owner_or_gov (hH : Function.Injective cfg.H)
-    {st st' : State κ} (hI : Inv cfg st) {op : Op} (h : step cfg st op = .ok st')
+    {st st' : State κ} (hI : Inv cfg st) (hS : CanonStored cfg st) {op : Op}
+    (h : step cfg st op = .ok st')
     {k : κ} {e : Record} (hg : get st.recs k = some e) (hch : get st'.recs k ≠ some e) :
-    op.signer = e.addr ∨ op.signer = cfg.authority := by
+    cfg.canon op.signer = e.addr ∨ op.signer = cfg.authority := by
   cases op with
   | root a n o r => exact absurd ((root_effect cfg h).1 k e hg) hch
   | bind pn pa rn ra r =>
@@ -170,7 +234,7 @@ theorem existing_record_changed_only_by_owner_or_gov (hH : Function.Injective cf
     · subst hk; rw [hg0] at hg; cases hg; exact Or.inl haddr.symm
     · rw [get_del_ne _ hk] at hch; exact absurd hg hch
   | modify a n ad r =>
-    obtain ⟨ex, name, k0, hex, hauth, hn, hk0, rfl⟩ := modifyName_ok cfg (step_ok_cases cfg h)
+    obtain ⟨ex, name, k0, hex, hauth, hn, hk0, -, rfl⟩ := modifyName_ok cfg (step_ok_cases cfg h)
     by_cases hk : k = k0
     · subst hk
       obtain ⟨k1, hk1, hg1⟩ := getRecordByName_some cfg hex
@@ -180,13 +244,37 @@ theorem existing_record_changed_only_by_owner_or_gov (hH : Function.Injective cf
       rw [hg1] at hg; cases hg
       rcases hauth with h1 | h2
       · exact Or.inr h1
-      · exact Or.inl h2
+      · exact Or.inl (by simp only [Op.signer]; rw [h2]; exact hS _ _ hg1)
     · rw [get_set_ne _ _ hk] at hch; exact absurd hg hch
 
 /-! ### invariants over all histories -/
 
-/-- the store invariant holds after every history of messages -/
-theorem inv_reachable (ops : List Op) : Inv cfg (run cfg {} ops) := inv_run cfg ops (inv_init cfg)
+/-- what a genesis import stores: `InitGenesis` (on the empty store) binds every binding of the
+file under its normalized name to the CANONICAL spelling of the binding's address — whatever
+valid spelling the file used — and stores nothing else. -/
+theorem genesis_effect {gs : List Record} {st0 : State κ} (hg : initGenesis cfg {} gs = .ok st0) :
+    (∀ b ∈ gs, ∃ n k, normalize cfg b.name = .ok n ∧ getNameKeyPrefix cfg n = .ok k ∧
+      get st0.recs k = some ⟨n, cfg.canon b.addr, b.restricted⟩) ∧
+    (∀ k r, get st0.recs k = some r → ∃ b ∈ gs, cfg.addrOk b.addr = true ∧
+      normalize cfg b.name = .ok r.name ∧ r.addr = cfg.canon b.addr ∧ r.restricted = b.restricted) := by
+  obtain ⟨-, hB, hC⟩ := initGenesis_effect cfg gs {} st0 hg
+  refine ⟨hC, fun k r h => ?_⟩
+  rcases hB k r h with h0 | h1
+  · simp [KV.get] at h0
+  · exact h1
+
+/-- the store invariant holds after every genesis import followed by every history of messages -/
+theorem inv_reachable {gs : List Record} {st0 : State κ} (hg : initGenesis cfg {} gs = .ok st0)
+    (ops : List Op) : Inv cfg (run cfg st0 ops) :=
+  inv_run cfg ops (inv_initGenesis cfg gs _ _ (inv_init cfg) hg)
+
+/-- Every stored address is in canonical spelling — after every genesis import (whatever valid
+spelling the file used for an address) followed by every history of messages (whatever spelling
+the messages used). -/
+theorem stored_addresses_canonical (hC : ∀ a, cfg.canon (cfg.canon a) = cfg.canon a)
+    {gs : List Record} {st0 : State κ} (hg : initGenesis cfg {} gs = .ok st0) (ops : List Op)
+    (k : κ) (r : Record) (h : get (run cfg st0 ops).recs k = some r) : cfg.canon r.addr = r.addr :=
+  canonStored_run cfg hC ops (canonStored_initGenesis cfg hC (canonStored_init cfg) hg) k r h
 
 /-- Keeper-level: the three writing keeper functions used by other modules keep the invariant. -/
 theorem keeper_calls_preserve_inv {st st' : State κ} (hI : Inv cfg st) (name : Bytes) (addr : Addr)
@@ -198,10 +286,11 @@ theorem keeper_calls_preserve_inv {st st' : State κ} (hI : Inv cfg st) (name : 
 
 /-- After every history the address index holds, under (address, key), exactly a copy of each
 record whose address it is: no entry is missing, stale or left behind by a change of owner. -/
-theorem index_entries_exact (ops : List Op) (a : Addr) (k : κ) (r : Record) :
-    get (run cfg {} ops).idx (a, k) = some r ↔
-      (get (run cfg {} ops).recs k = some r ∧ r.addr = a) :=
-  (inv_reachable cfg ops).idxExact a k r
+theorem index_entries_exact {gs : List Record} {st0 : State κ}
+    (hg : initGenesis cfg {} gs = .ok st0) (ops : List Op) (a : Addr) (k : κ) (r : Record) :
+    get (run cfg st0 ops).idx (a, k) = some r ↔
+      (get (run cfg st0 ops).recs k = some r ∧ r.addr = a) :=
+  (inv_reachable cfg hg ops).idxExact a k r
 
 theorem indexAgrees_of_inv {st : State κ} (hI : Inv cfg st) (a : Addr) :
     IndexAgrees (allRecords st) a (getRecordsByAddress st a) := by
@@ -245,47 +334,81 @@ theorem indexAgrees_of_inv {st : State κ} (hI : Inv cfg st) (a : Addr) :
     exact ⟨⟨((a, k), r'), ⟨(mem_iff_get hI.idxNodup _ _).mpr this, rfl⟩, rfl⟩, hra⟩
 
 /-- The by-address lookup lists exactly the names currently bound to each address — after every
-history of root creations, binds, modifications and deletions, by owners and strangers. -/
-theorem index_agrees (ops : List Op) (a : Addr) :
-    IndexAgrees (allRecords (run cfg {} ops)) a (getRecordsByAddress (run cfg {} ops) a) :=
-  indexAgrees_of_inv cfg (inv_reachable cfg ops) a
+genesis import and every history of root creations, binds, modifications and deletions, by owners
+and strangers. -/
+theorem index_agrees {gs : List Record} {st0 : State κ} (hg : initGenesis cfg {} gs = .ok st0)
+    (ops : List Op) (a : Addr) :
+    IndexAgrees (allRecords (run cfg st0 ops)) a (getRecordsByAddress (run cfg st0 ops) a) :=
+  indexAgrees_of_inv cfg (inv_reachable cfg hg ops) a
+
+/-- The same on address BYTES: the listing for (the canonical string of) an address is, up to
+order, the records whose address string parses to that address — a record is never hidden from
+its owner's listing by the spelling it was written with in a genesis file or a message. -/
+theorem index_agrees_by_address (hC : ∀ a, cfg.canon (cfg.canon a) = cfg.canon a)
+    {gs : List Record} {st0 : State κ} (hg : initGenesis cfg {} gs = .ok st0) (ops : List Op)
+    (a : Addr) :
+    (getRecordsByAddress (run cfg st0 ops) (cfg.canon a)).Perm
+      ((allRecords (run cfg st0 ops)).filter fun r => cfg.canon r.addr = cfg.canon a) := by
+  have h := index_agrees cfg hg ops (cfg.canon a)
+  unfold IndexAgrees at h
+  refine h.trans (List.Perm.of_eq (List.filter_congr ?_))
+  intro r hr
+  obtain ⟨⟨k, r'⟩, hm, rfl⟩ := List.mem_map.mp hr
+  have hI := inv_reachable cfg hg ops
+  have hc := stored_addresses_canonical cfg hC hg ops k r' ((mem_iff_get hI.recsNodup k r').mp hm)
+  simp only [hc]
+
+omit [DecidableEq κ] in
+/-- PARTIAL (the full statement — the `ReverseLookup` query lists the names bound to the address
+it is asked about, however that address is spelled — is false: `reverse_lookup_spelling`): asked
+with the canonical spelling, the query answers with exactly the names of the by-address listing. -/
+theorem reverse_lookup_agrees_partial (st : State κ) {a : Addr} (hok : cfg.addrOk a = true)
+    (hc : cfg.canon a = a) :
+    reverseLookup cfg st a = .ok ((getRecordsByAddress st a).map (·.name)) := by
+  simp [reverseLookup, getRecordsByAddress, hok, hc]
 
 /-- Every record sits under the key derived from its own name. -/
-theorem records_keyed_by_own_name (ops : List Op) (k : κ) (r : Record)
-    (h : get (run cfg {} ops).recs k = some r) : getNameKeyPrefix cfg r.name = .ok k :=
-  (inv_reachable cfg ops).keyed k r h
+theorem records_keyed_by_own_name {gs : List Record} {st0 : State κ}
+    (hg : initGenesis cfg {} gs = .ok st0) (ops : List Op) (k : κ) (r : Record)
+    (h : get (run cfg st0 ops).recs k = some r) : getNameKeyPrefix cfg r.name = .ok k :=
+  (inv_reachable cfg hg ops).keyed k r h
 
 /-- Every stored name is one `Keeper.Normalize` accepts unchanged: valid, normalized, within the
 configured segment and level limits. -/
-theorem stored_names_normalized (ops : List Op) (k : κ) (r : Record)
-    (h : get (run cfg {} ops).recs k = some r) : IsNormalized cfg r.name :=
-  (inv_reachable cfg ops).normd k r h
+theorem stored_names_normalized {gs : List Record} {st0 : State κ}
+    (hg : initGenesis cfg {} gs = .ok st0) (ops : List Op) (k : κ) (r : Record)
+    (h : get (run cfg st0 ops).recs k = some r) : IsNormalized cfg r.name :=
+  (inv_reachable cfg hg ops).normd k r h
 
 /-- What a name resolves to has the same store key as the name (so resolution is unambiguous
 exactly as far as the key derivation is injective). -/
-theorem resolve_same_key (ops : List Op) {n : Bytes} {r : Record}
-    (h : getRecordByName cfg (run cfg {} ops) n = some r) :
+theorem resolve_same_key {gs : List Record} {st0 : State κ}
+    (hg0 : initGenesis cfg {} gs = .ok st0) (ops : List Op) {n : Bytes} {r : Record}
+    (h : getRecordByName cfg (run cfg st0 ops) n = some r) :
     getNameKeyPrefix cfg r.name = getNameKeyPrefix cfg n := by
   obtain ⟨k, hk, hg⟩ := getRecordByName_some cfg h
-  rw [hk]; exact records_keyed_by_own_name cfg ops k r hg
+  rw [hk]; exact records_keyed_by_own_name cfg hg0 ops k r hg
 
-/-- A record outlives every history in which neither its owner nor governance signs anything. -/
-theorem record_persists_without_owner_or_gov (hH : Function.Injective cfg.H) {k : κ} {e : Record}
-    (ops : List Op) : ∀ {st : State κ}, Inv cfg st → get st.recs k = some e →
-      (∀ op ∈ ops, op.signer ≠ e.addr ∧ op.signer ≠ cfg.authority) →
+/-- A record outlives every history in which neither its owner (under any spelling of his
+address) nor governance signs anything. -/
+theorem record_persists_without_owner_or_gov (hH : Function.Injective cfg.H)
+    (hC : ∀ a, cfg.canon (cfg.canon a) = cfg.canon a) {k : κ} {e : Record}
+    (ops : List Op) : ∀ {st : State κ}, Inv cfg st → CanonStored cfg st → get st.recs k = some e →
+      (∀ op ∈ ops, cfg.canon op.signer ≠ e.addr ∧ op.signer ≠ cfg.authority) →
       get (run cfg st ops).recs k = some e := by
   induction ops with
-  | nil => intro st _ hg _; exact hg
+  | nil => intro st _ _ hg _; exact hg
   | cons op ops ih =>
-    intro st hI hg hs
+    intro st hI hS hg hs
     have hop := hs op (by simp)
-    refine ih (inv_apply cfg hI op) ?_ (fun o ho => hs o (List.mem_cons_of_mem _ ho))
+    refine ih (inv_apply cfg hI op) (canonStored_apply cfg hC hS op) ?_
+      (fun o ho => hs o (List.mem_cons_of_mem _ ho))
     unfold apply
     split
     · rename_i st' hstep
       by_cases hch : get st'.recs k = some e
       · exact hch
-      · rcases existing_record_changed_only_by_owner_or_gov cfg hH hI hstep hg hch with h1 | h2
+      · rcases existing_record_changed_only_by_owner_or_gov cfg hH hI hS hstep hg hch with h1 | h2
         · exact absurd h1 hop.1
         · exact absurd h2 hop.2
     · exact hg
@@ -413,12 +536,13 @@ theorem key_injective_normalized_partial (hH : Function.Injective cfg.H) {n1 n2 
 /-- PARTIAL (unambiguous resolution holds between names of equal profile): after every history,
 if a valid normalized name resolves to a record whose name has the same segment-length profile,
 that record carries this very name. -/
-theorem resolution_unambiguous_partial (hH : Function.Injective cfg.H) (ops : List Op) {n : Bytes}
-    {r : Record} (hn : IsNormalized cfg n) (h : getRecordByName cfg (run cfg {} ops) n = some r)
+theorem resolution_unambiguous_partial (hH : Function.Injective cfg.H) {gs : List Record}
+    {st0 : State κ} (hg0 : initGenesis cfg {} gs = .ok st0) (ops : List Op) {n : Bytes}
+    {r : Record} (hn : IsNormalized cfg n) (h : getRecordByName cfg (run cfg st0 ops) n = some r)
     (hp : profile r.name = profile n) : ResolvesOwn n r := by
   obtain ⟨k, hk, hg⟩ := getRecordByName_some cfg h
-  exact key_injective_normalized_partial cfg hH (stored_names_normalized cfg ops k r hg) hn
-    (records_keyed_by_own_name cfg ops k r hg) hk hp
+  exact key_injective_normalized_partial cfg hH (stored_names_normalized cfg hg0 ops k r hg) hn
+    (records_keyed_by_own_name cfg hg0 ops k r hg) hk hp
 
 /-! ### the collision (negation witness) -/
 
@@ -479,14 +603,59 @@ theorem collision_confers_authority :
       some (some ⟨bcdea, "A", false⟩, some ⟨bcdea, "A", false⟩) := by
   decide
 
+/-! ### address spellings: genesis import and the ReverseLookup query -/
+
+/-- configuration with two spellings per address: `A^` is the upper-case bech32 spelling of the
+address whose canonical string is `A` (the symbols of the correspondence harness) -/
+def scfg : Cfg Bytes :=
+  { H := id, authority := "G", addrOk := fun a => a != "X", hasAccount := fun _ => true,
+    canon := fun a => if a = "A^" then "A" else if a = "B^" then "B" else a }
+
+def DE : Bytes := [68, 69]   -- "DE"
+
+/-- a genesis file that spells the name of the root in upper case and its owner's address in the
+upper-case bech32 form, and binds `abc.de` to B in canonical spelling -/
+def spelledGenesis : List Record := [⟨DE, "A^", true⟩, ⟨abcde, "B", false⟩]
+
+/-- the hypotheses of the genesis theorems are satisfiable with a non-canonical spelling, and the
+import stores the canonical one: the root resolves to A, A's listing shows it, and A (under either
+spelling) may bind under his restricted root while B may not -/
+example : ∀ a, scfg.canon (scfg.canon a) = scfg.canon a := by
+  intro a
+  simp only [scfg]
+  split_ifs <;> simp_all
+example :
+    (initGenesis scfg {} spelledGenesis).toOption.map (fun s =>
+      (getRecordByName scfg s de, getRecordsByAddress s "A",
+        (step scfg s (.bind de "A^" bc "B^" false)).toOption.map (fun s' => getRecordsByAddress s' "B"),
+        (step scfg s (.bind de "B" bc "B" false)).toBool)) =
+      some (some ⟨de, "A", true⟩, [⟨de, "A", true⟩],
+        some [⟨bc ++ dot :: de, "B", false⟩, ⟨abcde, "B", false⟩], false) := by decide
+
+/-- NEGATION of "the by-address lookup lists exactly the names bound to each address" for the
+`ReverseLookup` QUERY asked with a non-canonical spelling: after the genesis import above the root
+`de` is bound to A; asked about `A` the query lists it, asked about the same address spelled `A^`
+(which `sdk.AccAddressFromBech32` accepts) it lists nothing, because it filters the index entries
+by comparing the stored address with the request string as written (query_server.go:59).  Known
+finding `C15-reverse-lookup-spelling`. -/
+theorem reverse_lookup_spelling :
+    (initGenesis scfg {} spelledGenesis).toOption.map (fun s =>
+      ((reverseLookup scfg s "A").toOption, (reverseLookup scfg s "A^").toOption,
+        getRecordsByAddress s (scfg.canon "A^"))) =
+      some (some [de], some [], [⟨de, "A", true⟩]) := by decide
+
 /-! ### non-vacuity -/
 
 /-- the hypotheses `Function.Injective cfg.H` and `Inv` are satisfiable -/
 example : Function.Injective wcfg.H := fun _ _ h => h
-example : Inv wcfg witnessState := inv_reachable wcfg _
+example : Inv wcfg witnessState := inv_reachable wcfg (gs := []) rfl _
 
 /-- each message kind succeeds on a concrete state (the `= .ok _` hypotheses are satisfiable) -/
 example : (step wcfg {} (.root "G" de "A" false)).toBool = true := by decide
+/-- a root name of several segments creates every level -/
+example : (step wcfg {} (.root "G" abcde "A" true)).toOption.map
+    (fun s => (getRecordByName wcfg s de, getRecordByName wcfg s abcde)) =
+    some (some ⟨de, "A", true⟩, some ⟨abcde, "A", true⟩) := by decide
 example : (step wcfg witnessState (.bind de "A" bc "C" true)).toBool = true := by decide
 /-- a record name that itself has several segments is refused (it would reach below `abc.de`) -/
 example : (step wcfg witnessState (.bind de "A" (bc ++ dot :: abc) "C" true)).toBool = false := by decide
